@@ -761,7 +761,9 @@ func runFront(c *Case, front string, p Plan) (outcome, *source) {
 			if front == "cl:read-all-seek" {
 				s.Let("sim-stream", &seekStreamObj{streamObj: streamObj{Reader: src}, sk: src})
 			} else {
-				s.Let("sim-stream", &streamObj{Reader: rd})
+				// a stream as the interpreter makes them for pipes, sockets and
+				// standard input: not seekable, one character of push-back
+				s.Let("sim-stream", slip.NewInputStream(rd))
 			}
 			code := slip.ReadString("(read sim-stream)", slip.NewScope())
 			var all []slip.Object
@@ -973,33 +975,18 @@ func (e *engine) Execute(raw json.RawMessage) (vd harness.Verdict) {
 			return nil // the wrapper's own symbols would be read as numbers
 		}
 		if front == "cl:peek+read-nonseek-safe" {
-			// The part of the non-seekable cl:read path that works on the
-			// unchanged tree (see known finding C02-read-nonseekable): complete
-			// texts whose top-level forms all end with their own closing
-			// character, delivered without zero-length reads and with EOF
-			// after the last data. Each read is preceded by a peek-char, so
-			// the stream's one-character push-back is exercised.
-			if ref.kind != "objects" || len(ref.raw) == 0 || p.EOFWithData || p.ErrAfter >= 0 {
+			// The part of the non-seekable cl:read path that works (see known
+			// finding C02-read-nonseekable): texts without the characters
+			// after which the reader reports a text that merely stops too
+			// early as a parse error instead of as incomplete - the escape
+			// character, the bar of |symbols|, # dispatches and the comma -
+			// on which reading byte by byte cannot work. Everything else is
+			// in: tokens ended by a delimiter that has to be handed back,
+			// zero-length reads, data delivered together with EOF, texts cut
+			// inside a form. Each read is preceded by a peek-char, so the
+			// stream's one-character push-back is exercised twice over.
+			if p.ErrAfter >= 0 || strings.ContainsAny(string(c.Text), "\\|#,") {
 				return nil
-			}
-			for _, k := range p.Sizes {
-				if k == 0 {
-					return nil
-				}
-			}
-			for _, o := range ref.raw {
-				switch to := o.(type) {
-				case slip.List:
-					if len(to) == 0 {
-						return nil
-					}
-				case slip.String, *slip.Vector:
-				default:
-					return nil
-				}
-			}
-			if strings.ContainsAny(string(c.Text), "'`,;#|\\") {
-				return nil // prefixes and comments confuse the byte-at-a-time reader
 			}
 		}
 		got, src := runFront(&c, front, p)
